@@ -561,6 +561,14 @@ pub fn run_all(out: &mut MemOut, rng: &mut Rng, rounds: usize) {
         BinaryHeap<u64>, BinaryHeap<String>, BinaryHeap<(u8, String)>,
         HashSet<u64>, HashSet<String>, HashMap<u64, String>, HashMap<String, Vec<u8>>, HashMap<u8, [String; 2]>,
         Vec<HashMap<u8, String>>, Option<HashSet<String>>,
+        // every wrapper once more *inside* a collection: the bulk-helper overrides of the element type
+        // decide what the container reports
+        Vec<Result<String, Vec<u8>>>, Box<[Result<u8, Box<str>>]>, [Result<String, String>; 3], Vec<Option<Result<u8, String>>>,
+        Vec<Range<String>>, Vec<RangeFrom<String>>, Vec<RangeTo<Vec<u8>>>, Vec<RangeToInclusive<String>>, Box<[Range<String>]>,
+        [Range<String>; 2], Vec<Mutex<String>>, Vec<RwLock<Vec<u8>>>, Vec<PathBuf>, Vec<OsString>, Vec<CString>,
+        Vec<BinaryHeap<String>>, BinaryHeap<Option<String>>, HashMap<String, Result<u8, String>>, HashMap<u8, Range<String>>,
+        HashSet<Option<String>>, Option<Result<String, Vec<u8>>>, (Result<String, String>, Option<Vec<u8>>),
+        Vec<(Range<String>, Result<u8, String>)>, Vec<Wrapping<u64>>, Vec<Box<Result<String, u8>>>,
     );
 }
 
